@@ -355,6 +355,24 @@ type replayFile struct {
 
 func main() {
 	r := vlib.Start("C06")
+	if r.ReplayIn != "" {
+		var rf replayFile
+		r.LoadReplay(&rf)
+		root := filepath.Join(r.Scratch, "proj")
+		rf.Graph.write(root)
+		o := runOnce(root, rf.Graph, rf.Choices, true)
+		bad := verdicts(rf.Graph, o)
+		fmt.Printf("graph: %s\nschedule: %v\nmodule executions: %v\nLoad returned: %v\n", rf.Graph, rf.Choices, o.ev.order, o.err)
+		if len(bad) == 0 {
+			fmt.Println("observed: no violation on this tree")
+			os.Exit(0)
+		}
+		for _, b := range bad {
+			fmt.Println("observed:", b)
+		}
+		fmt.Printf("VIOLATION property=C06 replay=%s\n", r.ReplayIn)
+		os.Exit(1)
+	}
 	var jobs []job
 	for _, g := range curated() {
 		b := 2
